@@ -21,6 +21,7 @@ RULE = (
     'enumeration), group orbits from pymatgen operation matrices, O(T^2) autocorrelation.  Non-trivial = at least one '
     'bond crosses a cell face in some frame and there are >= 2 clusters; distinct = SHA-1 of (cell, positions).'
 )
+RULE += ' Added in rounds 7-10: unbonded atoms of the satellite species anywhere in the atom table; a second system with the same species sequence and other bonding; near-identity / tiny-rotation / nearly singular / very large transform matrices.'
 ASSUMPTIONS = [
     'bond length below a fifth of the smallest perpendicular cell width; clusters separated by more than 1.5 bond lengths',
     'pymatgen PointGroup operation matrices are trusted (orthogonality and closure are verified at run time)',
